@@ -40,3 +40,8 @@ def run(check):
     check.run_rule('C19.R2c', lambda c: rule_mask_consume(c, M.mask(), 'C19.R2'))
     from ..rules_derived import rule_partial_binding_validated
     check.run_rule('C19.R6', lambda c: rule_partial_binding_validated(c, 'C19.R6'))
+    # "positionals resolve callee parameters, keywords do not": a known argument is looked up among the known arguments only (shared with C06.R8)
+    from ..rules_visitor import rule_resolution_order
+    check.run_rule('C19.R7', lambda c: rule_resolution_order(c, 'C19.R7'))
+    from ..rules_derived import rule_narrowed_kind_compared
+    check.run_rule('C19.R6b', lambda c: rule_narrowed_kind_compared(c, 'C19.R6'))
